@@ -17,6 +17,9 @@ import (
 // MaxEvents bounds the size of a trace (safety net against runaway scenarios).
 var MaxEvents = 400000
 
+// MaxBytes bounds the size of a trace in bytes (events carry whole trees: a runaway chain makes them grow).
+var MaxBytes int64 = 150 << 20
+
 // Tracer writes one JSON object per line. Seq numbers come from one atomic
 // counter taken inside Emit, so that cross-goroutine order is the order in
 // which the events were recorded (callers emit while holding the lock that
@@ -27,6 +30,7 @@ type Tracer struct {
 	f   *os.File
 	seq atomic.Int64
 	N   int
+	B   int64
 	// Sync flushes after every event so that a crash of the code under test loses nothing.
 	Sync bool
 	// Stamp adds a wall-clock offset (diagnostics only, never used for ordering).
@@ -46,9 +50,10 @@ func NewTracer(path string) (*Tracer, error) {
 func (t *Tracer) Emit(ev map[string]any) {
 	t.mu.Lock()
 	defer t.mu.Unlock()
-	if t.N >= MaxEvents {
+	if t.N >= MaxEvents || t.B >= MaxBytes {
 		// a runaway scenario must not fill the disk: the trace ends with a marker and the process stops
-		if t.N == MaxEvents {
+		if t.N != MaxEvents+1 {
+			t.N = MaxEvents
 			t.w.WriteString(`{"ev":"trace.truncated","seq":0}` + "\n")
 			t.w.Flush()
 			t.N++
@@ -67,6 +72,7 @@ func (t *Tracer) Emit(ev map[string]any) {
 	b = bytes.ReplaceAll(b, []byte(":null"), []byte(":[]"))
 	t.w.Write(b)
 	t.w.WriteByte('\n')
+	t.B += int64(len(b)) + 1
 	if t.Sync {
 		t.w.Flush()
 	}
